@@ -213,7 +213,7 @@ def judge(chk, run, it, cxx, std, impl, stats):
                         'model': CH.get(mrun[j], mrun[j]), 'cxx': cxx, 'std': std}
                 chk.report_failure({
                     'kind': 'impl≠spec', 'config': {'cxx': cxx, 'std': std, 'defines': ['SBEPP_ENABLE_ASSERTS_WITH_HANDLER']},
-                    'schema_xml': open(it.case.xml).read(), 'message': it.m['name'],
+                    'schema_xml': open(it.case.xml).read(), 'schema_sexp': it.case.sexp, 'message': it.m['name'],
                     'image': wire.hexs(it.img), 'mutation': it.mut, 'n': n,
                     'chain': ev.cpp_path, 'steps': ev.steps,
                     'driver_line': 'trunc %s %s %d %s' % (it.m['name'], wire.hexs(it.img), n, ev.cpp_path),
@@ -229,7 +229,10 @@ def judge(chk, run, it, cxx, std, impl, stats):
                 chk.report_unproved('impl≠model (Rt.Guards does not describe what the accessor does)', {
                     'chain': ev.cpp_path, 'lean_ops': ev.lean_ops, 'n': n, 'impl': CH[got], 'model': CH.get(mrun[j], mrun[j]),
                     'spec': CH[exp], 'schema_xml': open(it.case.xml).read(), 'message': it.m['name'],
-                    'image': wire.hexs(it.img), 'cxx': cxx, 'std': std})
+                    'image': wire.hexs(it.img), 'cxx': cxx, 'std': std,
+                    'driver_line': 'trunc %s %s %d %s' % (it.m['name'], wire.hexs(it.img), n, ev.cpp_path),
+                    'model_line': c10gen.lean_request(it.case.layout['byteOrder'], BASE, it.img, str(n), it.m,
+                                                      [(ev.needs_end, ev.lean_ops)], detail=True)})
             # guard / spec columns of the model answer
             if ev.modelled and (mspec[j] == 'i') != (ev.needs_end <= n):
                 chk.report_unproved('model-spec-verdict', {'chain': ev.cpp_path, 'n': n})
@@ -292,8 +295,8 @@ def judge_cursor(chk, run, it, cxx, std, impl, stats):
                         'cxx': cxx, 'std': std}
                 chk.report_failure({
                     'kind': 'impl≠spec', 'config': {'cxx': cxx, 'std': std, 'defines': ['SBEPP_ENABLE_ASSERTS_WITH_HANDLER']},
-                    'schema_xml': open(it.case.xml).read(), 'message': it.m['name'], 'image': wire.hexs(it.img),
-                    'mutation': it.mut, 'n': n, 'cursor_member': k, 'cursor_wrapper': var,
+                    'schema_xml': open(it.case.xml).read(), 'schema_sexp': it.case.sexp, 'message': it.m['name'],
+                    'image': wire.hexs(it.img), 'mutation': it.mut, 'n': n, 'cursor_member': k, 'cursor_wrapper': var,
                     'driver_line': 'ctrav %s %s %d %d  # answer character %d' % (
                         it.m['name'], wire.hexs(it.img), n, nr // 5, j),
                     'model_line': c10gen.lean_ctrav_request(it.case.layout['byteOrder'], BASE, it.img, str(n), it.m,
@@ -457,8 +460,8 @@ def run(chk):
         chk.leanchecker(MODULE)
     if chk.tier == 'thorough':
         configs = [(c, s_) for c in ('g++', 'clang++-14') for s_ in ('c++11', 'c++14', 'c++17', 'c++20')]
-        run_, stats = run_schemas(chk, 80, configs, values_per_msg=1, muts_per_image=4, max_image=260, max_chains=260,
-                                  max_cursor_members=40)
+        run_, stats = run_schemas(chk, 80, configs, values_per_msg=1, muts_per_image=3, max_image=240, max_chains=200,
+                                  max_cursor_members=32)
     else:
         configs = [('g++', 'c++17'), ('clang++-14', 'c++11')]
         run_, stats = run_schemas(chk, 12, configs, values_per_msg=1, muts_per_image=3)
@@ -488,7 +491,58 @@ def run(chk):
 
 
 def replay(chk, rep):
-    print(json.dumps({k: rep[k] for k in rep if k not in ('schema_xml',)}, indent=1)[:4000])
-    print('replay: run sbeppc on schema_xml, build the generated driver (vlib/c10gen.py gen_driver) and feed it '
-          'driver_line; feed model_line to sbepp_model for the model/spec answers')
-    return 1
+    """re-run the recorded case on the current tree: real sbeppc on schema_xml, generated driver on driver_line,
+    sbepp_model on model_line; prints implementation, model and specification side by side"""
+    import re
+    import shutil
+    import tempfile
+    from .. import sbeppc
+    print(json.dumps({k: rep[k] for k in rep if k not in ('schema_xml', 'schema_sexp', 'model_line', 'driver_line')},
+                     indent=1)[:3000])
+    if 'schema_xml' not in rep or 'driver_line' not in rep:
+        print('not an input replay (theorem / extraction / correspondence record)')
+        return 1
+    extract_all(chk)
+    model = chk.model_exe()
+    exe, log = sbeppc.build(chk)
+    if model is None or exe is None:
+        print('cannot build the model driver / sbeppc')
+        return 1
+    d = tempfile.mkdtemp(prefix='c10replay', dir=core.BUILD)
+    try:
+        class Case:
+            pass
+        case = Case()
+        case.dir = d
+        case.xml = os.path.join(d, 'schema.xml')
+        open(case.xml, 'w').write(rep['schema_xml'])
+        case.s = {'package': re.search(r'package="([^"]+)"', rep['schema_xml']).group(1)}
+        rc, out = sbeppc.run(exe, case.xml, os.path.join(d, 'gen'))
+        if rc != 0:
+            print('sbeppc rejects the schema now: rc=%s %s' % (rc, out[:300]))
+            return 1
+        rc, lay = core.sh([model], input='layout ' + rep['schema_sexp'] + '\n')
+        case.layout = json.loads(lay)
+        cfg = rep.get('config', {})
+        drv, log = c10gen.build(case, cfg.get('cxx', 'g++'), cfg.get('std', 'c++17'))
+        if drv is None:
+            print('driver does not compile:\n' + log[-2000:])
+            return 1
+        line = rep['driver_line'].split('  #')[0]
+        rc, impl = core.sh([drv], input=line + '\n')
+        rc, mod = core.sh([model], input=rep['model_line'] + '\n')
+        print('driver_line : ' + line[:400])
+        print('impl        : ' + impl.strip()[:400])
+        print('model       : ' + mod.strip()[:400] + '   (RUN/GUARD/SPEC, one character per chain or cursor run)')
+        print('spec        : expected %s (needs_end=%s, n=%s)' % (
+            rep.get('observed', {}).get('spec'), rep.get('case', {}).get('needs_end'), rep.get('n')))
+        got = impl.strip()
+        j = None
+        m = re.search(r'answer character (\d+)', rep['driver_line'])
+        if m:
+            j = int(m.group(1))
+        ch = got[j] if (j is not None and j < len(got)) else (got[:1] if got else '?')
+        print('observed now: %s' % CH.get(ch, ch))
+        return 0 if CH.get(ch) == rep.get('observed', {}).get('spec') else 1
+    finally:
+        shutil.rmtree(d, ignore_errors=True)
